@@ -202,6 +202,9 @@ func obligationFor(ob *Obligation, fc *FuncContract, p string) bool {
 	if len(ob.Props) > 0 {
 		return hasProp(ob.Props, p)
 	}
+	if fc.TaggedOnly && ob.Kind != "subset" && ob.Kind != "cover" {
+		return false
+	}
 	// untagged obligations (safety, pre, lock, monitor...) belong to the function's default props
 	if len(fc.Props) > 0 {
 		return hasProp(fc.Props, p)
@@ -1131,12 +1134,33 @@ func (v *Verifier) VerifyFunction(fn *ssa.Function, fc *FuncContract) (err error
 			}
 			for _, c := range ic.Clauses {
 				if c.Kind == "ensures" {
+					// a clause that defines a ghost record of another package (a counter of calls through the interface,
+					// kept by the caller's package) is not something an implementation can establish
+					if v.mentionsForeignGhost(c.Expr) {
+						continue
+					}
 					v.addOb(e.st, "post", fn.Pos(), iev.boolExpr(c.Expr), "implements "+ic.Key+": ensures "+c.Text, c.Props)
 				}
 			}
 		}
 	}
 	return nil
+}
+
+// mentionsForeignGhost: e names a ghost global that is declared in a package other than the one under verification.
+func (v *Verifier) mentionsForeignGhost(e *Expr) bool {
+	if e == nil {
+		return false
+	}
+	if e.Op == "id" && v.contracts.isGhostGlobal(e.Name) && !v.contracts.ghostInScope(e.Name, curScope) {
+		return true
+	}
+	for _, a := range e.Args {
+		if v.mentionsForeignGhost(a) {
+			return true
+		}
+	}
+	return false
 }
 
 // ifaceMethodExists: some named interface type called typeKey (pkg.Type) in the program has method `method`.
